@@ -30,13 +30,13 @@ RULE = (
 )
 TOLERANCES = {"additivity_rel": 1e-10, "readback_rel": 1e-10, "unchanged_rel": 1e-12, "massfrac_sum_abs": 1e-10, "inverse_rel": 1e-12, "spec_volume_rel": 1e-9,
               "trace_abs": 1e-40}
-FLOORS = {"quick": {"ledger.block": 3000, "ledger.assembly": 300, "ledger.core": 40, "ledger.component": 2500, "edit.block-symmetry-factor-3": 18,
+FLOORS = {"quick": {"block.with-negative-volume-child": 6, "ledger.block": 3000, "ledger.assembly": 300, "ledger.core": 40, "ledger.component": 2500, "edit.block-symmetry-factor-3": 18,
                     "edit.block-symmetry-factor-2": 12, "ledger.component-in-block-of-factor-3": 18, "ledger.component-in-block-of-factor-2": 12,
                     "edit.cartesian-block-symmetry-factor-4": 6, "edit.cartesian-block-symmetry-factor-2": 6, "symmetry-factor.3": 45, "symmetry-factor.2": 50,
                     "symmetry-factor.cartesian-4": 12, "symmetry-factor.cartesian-2": 12, "volume-from-spec": 900, "edge-assemblies.changed": 3,
                     "readback": 2000, "readback.mass-vector": 250, "others-unchanged": 1000, "absent-nuclide.composite": 120, "absent-nuclide.component": 70,
                     "massfrac": 300, "getMasses": 6000, "getMassFrac": 3000, "densityTools": 300, "selection": 1000},
-          "thorough": {"ledger.block": 60000, "ledger.assembly": 6000, "ledger.core": 800, "ledger.component": 30000, "edit.block-symmetry-factor-3": 350,
+          "thorough": {"block.with-negative-volume-child": 200, "ledger.block": 60000, "ledger.assembly": 6000, "ledger.core": 800, "ledger.component": 30000, "edit.block-symmetry-factor-3": 350,
                        "edit.block-symmetry-factor-2": 60, "ledger.component-in-block-of-factor-3": 350, "ledger.component-in-block-of-factor-2": 60,
                        "edit.cartesian-block-symmetry-factor-4": 60, "edit.cartesian-block-symmetry-factor-2": 60, "symmetry-factor.3": 800, "symmetry-factor.2": 250,
                        "symmetry-factor.cartesian-4": 120, "symmetry-factor.cartesian-2": 120, "volume-from-spec": 10000, "edge-assemblies.changed": 15,
@@ -787,7 +787,10 @@ def do_blocks(spec, rec, rng0):
 
     for i in range(spec["n"]):
         rng = random.Random("%s:%d" % (spec["rng"], i))
-        bs = gen.generic_block_spec(rng) if rng.random() < .5 else gen.pin_block_spec(rng, kind=rng.choice(["fuel", "fuel", "control", "shield", "plenum"]))
+        if rng.random() < .15:
+            bs = gen.pin_block_spec(rng, kind="fuel", overlap=True)  # a child with negative volume (overlapped Void gap)
+        else:
+            bs = gen.generic_block_spec(rng) if rng.random() < .5 else gen.pin_block_spec(rng, kind=rng.choice(["fuel", "fuel", "control", "shield", "plenum"]))
         w = {"block": bs["components"], "case": i}
         try:
             b = gen.build_block(bs, rng.uniform(5, 50))
@@ -795,6 +798,11 @@ def do_blocks(spec, rec, rng0):
             rec.crash("build-block", e, w)
             continue
         sig = layout_sig(bs)
+        try:
+            if any(c.getVolume() < 0 for c in b):
+                rec.hit("block.with-negative-volume-child")
+        except Exception:
+            pass
         check_ledger(rec, b, "block", w, rng=rng)
         for c in list(b)[:3]:
             check_ledger(rec, c, "component", dict(w, component=c.name))
